@@ -110,7 +110,7 @@ func newCoveragesFromCmapRange(cmap font.CmapRuneRanger, buffer [][2]rune) (Rune
 	ss := scriptsFromRanges(buffer)
 
 	var rs RuneSet
-	lastPage := &runePage{ref: 0xFFFF} // start with an invalid sentinel value
+	var lastPage *runePage // the page holding the end of the previous range; nil before the first range
 	for _, ra := range buffer {
 		start, end := ra[0], ra[1]
 
@@ -125,7 +125,7 @@ func newCoveragesFromCmapRange(cmap font.CmapRuneRanger, buffer [][2]rune) (Rune
 
 		// check if we can reuse the last page
 		var leaf *pageSet
-		if pageStart == lastPage.ref { // use the same page
+		if lastPage != nil && pageStart == lastPage.ref { // use the same page
 			leaf = &lastPage.set
 		} else {
 			rs = append(rs, runePage{ref: pageStart})
